@@ -38,6 +38,12 @@ def scenarios(rep, tier, seed, pid_salt=13, nq=0):
         if not K.materialise(scn):
             continue
         scns.append(scn)
+    # non-symmetric identifiers: a sample's neighbours are the samples nearest FROM it, d(sample, other) - the direction matters
+    rng2 = random.Random(seed * 1000003 + 1313)
+    for i in range(240 if thorough else 48):
+        scn = K.random_scenario(rng2, "unsup" if i % 2 else "knn", metric=["pearson", "neyman", "kullback_leibler", "k_divergence"][i % 4], nq=0, positive=True, mode="metric")
+        scn["allow_asymmetric"] = True
+        scns.append(scn)
     # C (spec -> code) at the level of one clustering pass: initial states of the design model OPFKnn (densities on a
     # half-integer grid, so that densities within 1 of each other but not equal occur) installed through the public
     # node attributes; the near-tie structure this reaches is practically unreachable through real data
